@@ -57,4 +57,7 @@ type Job struct {
 	Specs   []RunSpec `json:"specs"`
 	Out     string    `json:"out"`     // results file (JSON lines)
 	Journal string    `json:"journal"` // BEGIN/END lines, so a crash identifies its run
+	// RunLimitS: real seconds one run may take before the worker declares it hung,
+	// dumps every goroutine to stderr, journals HANG and exits (0 = no limit).
+	RunLimitS int `json:"run_limit_s,omitempty"`
 }
